@@ -442,6 +442,14 @@ _ODF_DEFAULT = {"repeated": 1, "number": 1}
 _FALSY_MEANS = {("Table", "width"): 1, ("Table", "height"): 1}
 
 
+_ELEM = "@Element:Paragraph"
+
+
+def _materialise(kw):
+    from odfdo import Paragraph
+    return {n: (Paragraph("body text") if isinstance(v, str) and v == _ELEM else v) for n, v in kw.items()}
+
+
 def _value_pool(pname, ann, default, cls=""):
     ann = _re.sub(r"\[[^\]]*\]", "", str(ann))          # list[str] / Iterable[...] are not str parameters
     vals = []
@@ -465,6 +473,10 @@ def _value_pool(pname, ann, default, cls=""):
         vals.append(_TD)
     if _re.search(r"\btuple\b", ann) and pname in ("position", "size", "p1", "p2"):
         vals.append(("1cm", "2cm"))
+    if _re.search(r"\bElement\b", ann) and _re.search(r"\bstr\b", ann):
+        # a "text or element" content parameter (a fresh text:p per call); parameters typed Element alone expect
+        # one particular class (AnnotationEnd(annotation=<Annotation>)) and are left to their own defaults
+        vals.append(_ELEM)
     return vals
 
 
@@ -535,6 +547,15 @@ def _gen_ctor(con, sigcase, count, seed):
                     if (k.__name__, n) in _CONDITIONAL:
                         yield {"cls": cname, "kwargs": {**base, **_CONDITIONAL[(k.__name__, n)][1], n: v},
                                "base": False}
+            # an element-valued argument together with each other argument (setters that rebuild the children
+            # must not lose what the other arguments wrote)
+            for ne in [n for n in pools if _ELEM in pools[n] and n not in base]:
+                for n, _ann, _d in params:
+                    if n == ne or n in base:
+                        continue
+                    for v in pools[n]:
+                        if v is not None:
+                            yield {"cls": cname, "kwargs": {**base, ne: _ELEM, n: v}, "base": False}
             names = [n for n, _a, _d in params if n not in base and pools[n]]
             pairs = list(_it.combinations(names, 2))
             rnd.shuffle(pairs)
@@ -639,7 +660,7 @@ def _call_ctor(con, fn, argvals, labels):
     short = k.__name__
     call = f"{short}({', '.join(f'{n}={v!r}' for n, v in kw.items())})"
     try:
-        inst = k(**kw)
+        inst = k(**_materialise(kw))
     except (TypeError, ValueError) as ex:
         if argvals["base"]:
             res.checked = 1
@@ -680,7 +701,7 @@ def _call_ctor(con, fn, argvals, labels):
             if arg in ("", 0, False):
                 # a falsy argument may mean "not given": then the property is that of the call without it
                 try:
-                    without = _read_props(k(**{a: b for a, b in kw.items() if a != n}), [n]).get(n, _MISSING)
+                    without = _read_props(k(**_materialise({a: b for a, b in kw.items() if a != n})), [n]).get(n, _MISSING)
                 except Exception:  # noqa
                     without = _MISSING
                 if _plain(without) == _plain(got) or _FALSY_MEANS.get((short, n), _MISSING) == got:
@@ -741,7 +762,8 @@ contract(
     gen=_gen_ctor, call_native=_call_ctor,
     bounded=dict(scope="every class of the real registry: minimal accepted call; each keyword parameter alone over the "
                        "values its annotation admits from {None, '', 'x', 'a b', '#FF0000', 'true', 0, 1, 3, True, "
-                       "False, date, datetime, timedelta, ('1cm','2cm')} (colour parameters: '', '#FF0000'); 8 "
+                       "False, date, datetime, timedelta, ('1cm','2cm'), a text:p element}; an element-valued argument "
+                       "together with every other argument (colour parameters: '', '#FF0000'); 8 "
                        "parameter pairs x 2 value pairs per class (quick) / all pairs x 6 (thorough); Style on top of "
                        "11 families; TypeError/ValueError = rejected (not counted)",
                  reason="constructors that build children (frames, lists, notes, TOC, tracked changes) are outside "
